@@ -13,7 +13,7 @@ From Coq Require Import List Ascii ZArith Bool.
 From CGV Require Import Base.PyBase Base.PyVal Base.NxGraph Gen.WriterGen Dialect.DialectImpl Write.WriteImpl Write.FragDefs
      Write.FragCheck Write.FormatBondingSpec.
 From CGV Require Import Frag.NDict Frag.StripImpl Frag.FragText Write.FormatStripRound.
-From CGV Require Import Write.WriteProofs Write.PathRound Write.FragRead Write.CoarseChain Reader.Grammar Reader.ReaderImpl.
+From CGV Require Import Write.WriteProofs Write.PathRound Write.FragRead Write.CoarseChain Write.CoarseFrags Reader.Grammar Reader.ReaderImpl.
 Import ListNotations.
 Open Scope Z_scope.
 
@@ -90,6 +90,35 @@ Example C08_coarse_chain_nonvacuous :
      end.
 Proof. exact coarse_chain_example. Qed.
 
+(** a LIST of coarse chain fragments, any number, unbounded: write_cgsmiles_fragments(smiles_format=False) writes
+    "{#name1=text1,#name2=text2,...}" (dict order, `,` between the definitions, none after the last) *)
+Theorem C08_write_coarse_fragments : forall fs, Forall cf_wok fs ->
+  write_cgsmiles_fragments false (map cf_entry fs) = Ok (S "{" ++ join (S ",") (map cf_def fs) ++ S "}").
+Proof. exact write_coarse_fragments. Qed.
+(** ... the splitting of fragment_iter (the strip component's model [fragment_split]) gives the pairs (name, text)
+    back in order: fragment names without ',' and '=', node names without ',' *)
+Theorem C08_split_coarse_fragments : forall fs, fs <> [] -> Forall cf_sok fs ->
+  fragment_split (S "{" ++ join (S ",") (map cf_def fs) ++ S "}") = map (fun f => (cf_name f, cf_text f)) fs.
+Proof. exact split_coarse_fragments. Qed.
+(** ... and fragment_iter(all_atom=False) on the written text ([read_coarse_fragments] = fragment_split, then per
+    definition strip_bonding_descriptors and read_fragment_cgsmiles) yields, in the same order and under the same
+    names, every chain numbered 0..n with its names' attributes, bond orders and exactly its descriptor dict
+    ([cf_read]); descriptors of the four kinds, orders 0..3, bonds 0..4.  Hypotheses kept per fragment ([cf_ok]):
+    distinct keys with the smallest at one end, names accepted by the strip and reader grammars and free of ',' (and
+    of '=' for the fragment name). *)
+Theorem C08_coarse_fragments_roundtrip : forall fo A a0 (fs : list cfrag),
+  fragment_node_parser fo [] = Ok a0 -> fs <> [] -> Forall (cf_ok fo A) fs ->
+  exists txt, write_cgsmiles_fragments false (map cf_entry fs) = Ok txt
+              /\ txt = S "{" ++ join (S ",") (map cf_def fs) ++ S "}"
+              /\ read_coarse_fragments fo txt = map (fun f => (cf_name f, cf_read A a0 f)) fs.
+Proof. exact coarse_fragments_roundtrip. Qed.
+Example C08_coarse_fragments_nonvacuous :
+  write_cgsmiles_fragments false (map cf_entry ex_fs) = Ok (S "{#X=[#A][$a]=[>]=[#B].[!x].[#PEO][#A]#[<],#PEO=[#PEO][<][#PEO][>]}")
+  /\ map fst (read_coarse_fragments (fun _ => None) (S "{#X=[#A][$a]=[>]=[#B].[!x].[#PEO][#A]#[<],#PEO=[#PEO][<][#PEO][>]}")) = [S "X"; S "PEO"]
+  /\ forallb (fun nr => match snd nr with Ok _ => true | Err _ => false end)
+             (read_coarse_fragments (fun _ => None) (S "{#X=[#A][$a]=[>]=[#B].[!x].[#PEO][#A]#[<],#PEO=[#PEO][<][#PEO][>]}")) = true.
+Proof. exact coarse_fragments_example. Qed.
+
 Theorem C08_descriptors_on_atom0 : forall L : list dspec, L <> [] ->
   fold_left (fun d x => nd_append 0 (d_stored x) d) L [] = [(0%nat, map d_stored L)].
 Proof. exact descs_on_atom0. Qed.
@@ -109,4 +138,7 @@ Print Assumptions C08_format_bonding_single.
 Print Assumptions C08_format_strip_roundtrip.
 Print Assumptions C08_format_strip_roundtrip_coarse.
 Print Assumptions C08_coarse_chain_roundtrip.
+Print Assumptions C08_write_coarse_fragments.
+Print Assumptions C08_split_coarse_fragments.
+Print Assumptions C08_coarse_fragments_roundtrip.
 Print Assumptions C08_descriptors_on_atom0.
